@@ -1813,7 +1813,8 @@ func buildConstructorCode(src, tgt *expr.AttributeExpr, sourceVar, targetVar str
 	targetRTs := &expr.Object{}
 	tatt := expr.DupAtt(tgt)
 	tobj := expr.AsObject(tatt.Type)
-	for _, nat := range *tobj {
+	// iterate over a copy: Delete modifies the object being iterated
+	for _, nat := range append(expr.Object{}, *tobj...) {
 		if _, ok := nat.Attribute.Type.(*expr.ResultTypeExpr); ok {
 			targetRTs.Set(nat.Name, nat.Attribute)
 			tobj.Delete(nat.Name)
